@@ -4,8 +4,8 @@ import build_common as bc
 
 ID = "C16"
 LEVEL = "proof"
-COQ_TARGETS = ["Props/Properties_C16.vo", "Extract/ExtractBuild.vo"]
-PROPS_FILES = ["Props/Properties_C16.v"]
+COQ_TARGETS = ["Props/Properties_C16.vo", "Props/Properties_C16_indep.vo", "Extract/ExtractBuild.vo"]
+PROPS_FILES = ["Props/Properties_C16.v", "Props/Properties_C16_indep.v"]
 RUNS = [dict(name="copy", harness="c04", driver="build", model_ml="build_model", harness_args=["-mode", "c16"])]
 EXPLANATION = ("Theorems about writePtr's copy branches and copyStruct (frame_all: mutual induction over the copy recursion for all source trees, arenas, capacities): copies live in storage allocated during the call, the source is untouched; data-section truncation / zero-extension; capability re-homing appends exactly one table entry. Differential run with sources built by the library, mutated, cyclic and raw, small traversal/depth limits, version skew in SetStruct/CopyFrom, mutations on both sides and re-walks.")
 TRUSTED = ["models coq/Core/Builder.v (alloc, arenas, nextAlloc, constructors, setters, writePtr, copyStruct), coq/Core/BuildOps.v "
@@ -30,9 +30,14 @@ LEVEL_TEXT = ("Proof of the T1 theorems for all source trees, arenas, capacities
               "either side never show through), cap_copy (exactly one new table entry holding the source's client). Differential "
               "run: every copy agrees byte for byte with the model, incl. capability table contents and client reference counts, "
               "trees of both sides before/after mutations.")
-LEVEL_NOTE = ("Not proved: T2 copy_value (walk dst = resize (walk src) for whole trees; the tie shows it per program). The +1 reference "
-              "of a re-homed capability is observed through the hook VerifRefs and compared with the table contents, not modelled in "
-              "Coq (Cap.v is C10's).")
+LEVEL_NOTE = ("T2 is proved in two halves. Value half (C16_copy_value_*, eqcanon engineer): a cross-message copy into a "
+              "single-segment destination reads as the value the source denotes, resized for version skew; not for multi-segment "
+              "destinations or copies inside one message (the tie shows those per program). Independence half "
+              "(Properties_C16_indep.v, any arena): a copy consists of fresh table objects disjoint from all older ones, so later "
+              "writes to the source never change the copy and vice versa (C16_copy_independent); no builder op writes the source "
+              "message (C16_copy_keeps_source, C16_source_unchanged) and source-side setters do not write the destination. The +1 "
+              "reference of a re-homed capability is observed through the hook VerifRefs and compared with the table contents, "
+              "not modelled in Coq (Cap.v is C10's).")
 DESIGN_REF = "DESIGN.md section 6, C16"
 
 classify = bc.classify
